@@ -33,6 +33,11 @@ pub fn write(
                 // the program headers, we can't get to the note section if the section header
                 // table isn't loaded.
                 if let Some(path) = &dumper.mappings[map_idx].name {
+                    // Never open mapped files that live under /dev, doing so could
+                    // hang the dumper (see `is_mapped_file_safe_to_open`)
+                    if !MappingInfo::is_mapped_file_safe_to_open(&dumper.mappings[map_idx].name) {
+                        return Err(e);
+                    }
                     let path = std::path::Path::new(&path);
                     if path.exists() {
                         log::debug!("failed to get build id from process memory ({e}), attempting to retrieve from {}", path.display());
